@@ -17,7 +17,7 @@ theorem pc_zero_of_live {l : Bool} {s : State} (h : Inv l s) {x : Actor} (hx : x
 theorem ok_of_inv {l : Bool} {s : State} (h : Inv l s) (hc : l = true → noNamedProxy s) :
     ok (view s) = true := by
   simp only [ok, Bool.and_eq_true]
-  refine ⟨⟨⟨⟨?_, ?_⟩, ?_⟩, ?_⟩, ?_⟩
+  refine ⟨⟨⟨⟨⟨?_, ?_⟩, ?_⟩, ?_⟩, ?_⟩, by simp [okPidEvents, view]⟩
   · simp only [okUnique, view]; exact decide_eq_true h.keys
   · simp only [okHolder, view, List.all_eq_true, List.any_eq_true, List.mem_map]
     intro p hp
@@ -232,5 +232,127 @@ theorem noNamedProxy_run (l : Bool) (ops : List Op) (s : State) (h : noNamedProx
   | cons op ops ih =>
     simp only [noNamedRemoteProxy, List.all_cons, Bool.and_eq_true] at hop
     exact ih _ (noNamedProxy_step l s op h (by simp [noNamedRemoteProxy, hop.1])) hop.2
+
+end Registry
+
+namespace Registry
+
+/-- "a local actor with id `a` exists" survives every step -/
+theorem actor_persist (l : Bool) (s : State) (op : Op) (a : Nat)
+    (h : ∃ x ∈ s.actors, x.id = a ∧ x.remote = false) :
+    ∃ x ∈ (step l s op).1.actors, x.id = a ∧ x.remote = false := by
+  obtain ⟨x, hx, h1, h2⟩ := h
+  have happ : ∀ (extra : List Actor) (s' : State), s'.actors = s.actors ++ extra →
+      ∃ y ∈ s'.actors, y.id = a ∧ y.remote = false := by
+    intro extra s' e; exact ⟨x, by rw [e]; simp [hx], h1, h2⟩
+  have hset : ∀ (s0 : State) (b : Nat) (f : Actor → Actor), s0.actors = s.actors →
+      (∀ y, (f y).id = y.id ∧ (f y).remote = y.remote) →
+      ∃ y ∈ (setA s0 b f).actors, y.id = a ∧ y.remote = false := by
+    intro s0 b f e hf
+    refine ⟨if x.id = b then f x else x, mem_setA.mpr ⟨x, e ▸ hx, rfl⟩, ?_⟩
+    split
+    · exact ⟨(hf x).1.trans h1, (hf x).2.trans h2⟩
+    · exact ⟨h1, h2⟩
+  cases op with
+  | register b n =>
+    simp only [step]; split
+    · exact ⟨x, hx, h1, h2⟩
+    · split
+      · exact ⟨x, hx, h1, h2⟩
+      · exact happ _ _ rfl
+  | create b =>
+    simp only [step]; split
+    · exact ⟨x, hx, h1, h2⟩
+    · exact happ _ _ rfl
+  | proxy b n =>
+    simp only [step]; split
+    · exact ⟨x, hx, h1, h2⟩
+    · exact happ _ _ rfl
+  | publish b st =>
+    simp only [step]; split
+    · exact ⟨x, hx, h1, h2⟩
+    · split
+      · exact ⟨x, hx, h1, h2⟩
+      · split
+        · exact ⟨x, hx, h1, h2⟩
+        · exact hset s b _ rfl (fun y => ⟨rfl, rfl⟩)
+  | unregPid b =>
+    simp only [step]; split
+    · exact ⟨x, hx, h1, h2⟩
+    · split
+      · exact ⟨x, hx, h1, h2⟩
+      · refine hset _ b _ ?_ (fun y => ⟨rfl, rfl⟩)
+        split <;> rfl
+  | unregName b =>
+    simp only [step]; split
+    · exact ⟨x, hx, h1, h2⟩
+    · split
+      · exact ⟨x, hx, h1, h2⟩
+      · refine hset _ b _ ?_ (fun y => ⟨rfl, rfl⟩)
+        split
+        · split <;> rfl
+        · rfl
+  | lookup n => exact ⟨x, hx, h1, h2⟩
+  | lookupPid b => exact ⟨x, hx, h1, h2⟩
+  | waitRet b => exact ⟨x, hx, h1, h2⟩
+
+theorem actor_persist_run (l : Bool) (ops : List Op) (s : State) (a : Nat)
+    (h : ∃ x ∈ s.actors, x.id = a ∧ x.remote = false) :
+    ∃ x ∈ (run l s ops).actors, x.id = a ∧ x.remote = false := by
+  induction ops generalizing s with
+  | nil => exact h
+  | cons op ops ih => exact ih _ (actor_persist l s op a h)
+
+/-- the events of one region concern a local actor that exists right after it -/
+theorem pidEvents_actor (l : Bool) (s : State) (op : Op) (e : Bool × Nat) (he : e ∈ pidEvents s op) :
+    ∃ x ∈ (step l s op).1.actors, x.id = e.2 ∧ x.remote = false := by
+  cases op with
+  | register a n =>
+    simp only [pidEvents] at he
+    by_cases c : (fresh s a && (whereIs s n).isNone) = true
+    · rw [if_pos c] at he
+      simp only [List.mem_singleton] at he; subst he
+      simp only [Bool.and_eq_true, Option.isNone_iff_eq_none] at c
+      have hw : (whereIs s n).isSome = false := by rw [c.2]; rfl
+      simp only [step, c.1, hw, Bool.not_true, Bool.false_eq_true, ↓reduceIte]
+      exact ⟨⟨a, some n, false, 0, 0⟩, by simp, rfl, rfl⟩
+    · rw [if_neg c] at he; cases he
+  | create a =>
+    simp only [pidEvents] at he
+    by_cases c : fresh s a = true
+    · rw [if_pos c] at he
+      simp only [List.mem_singleton] at he; subst he
+      simp only [step, c, Bool.not_true, Bool.false_eq_true, ↓reduceIte]
+      exact ⟨⟨a, none, false, 0, 0⟩, by simp, rfl, rfl⟩
+    · rw [if_neg c] at he; cases he
+  | unregPid a =>
+    simp only [pidEvents] at he
+    cases hg : getA s a with
+    | none => rw [hg] at he; cases he
+    | some x =>
+      rw [hg] at he
+      simp only at he
+      by_cases c : x.pc = 1 ∧ x.remote = false ∧ a ∈ s.pids
+      · rw [if_pos c] at he
+        simp only [List.mem_singleton] at he; subst he
+        obtain ⟨hx, hid⟩ := getA_some hg
+        exact actor_persist l s (.unregPid a) a ⟨x, hx, hid, c.2.1⟩
+      · rw [if_neg c] at he; cases he
+  | proxy a n => cases he
+  | publish a st => cases he
+  | unregName a => cases he
+  | lookup n => cases he
+  | lookupPid a => cases he
+  | waitRet a => cases he
+
+theorem runEvents_actor (l : Bool) (ops : List Op) (s : State) (e : Bool × Nat)
+    (he : e ∈ runEvents l s ops) : ∃ x ∈ (run l s ops).actors, x.id = e.2 ∧ x.remote = false := by
+  induction ops generalizing s with
+  | nil => cases he
+  | cons op ops ih =>
+    simp only [runEvents, List.mem_append] at he
+    rcases he with he | he
+    · exact actor_persist_run l ops _ _ (pidEvents_actor l s op e he)
+    · exact ih _ he
 
 end Registry
